@@ -1620,6 +1620,21 @@ Section MultiplyLayer.
     intro E. injection E as <- <- <-. repeat split; [lia].
   Qed.
 
+  Lemma mult_recv_check_same_len result rcheck ucheck :
+    length rcheck = length result ->
+    mult_recv_check q chi0 chi1 choices result rcheck ucheck
+    = mult_recv_check_from q chi0 chi1 0 choices result rcheck ucheck.
+  Proof. intro L. unfold mult_recv_check. now rewrite L, Nat.eqb_refl. Qed.
+
+  (* the repaired length check: a message with the wrong number of check values is an error *)
+  Lemma mult_recv_wrong_len result rcheck ucheck gadget :
+    length rcheck <> length result ->
+    mult_recv q chi0 chi1 choices result rcheck ucheck gadget = RErr.
+  Proof.
+    intro L. unfold mult_recv, mult_recv_check.
+    destruct (Nat.eqb_spec (length rcheck) (length result)); [contradiction|reflexivity].
+  Qed.
+
   (* what the receiver ends with when the sender's message was altered by (d0, d1, e, f):
      never a panic; an error; or acceptance, and then the acceptance condition holds and the two
      shares add up to alpha * <choices, gadget> + sum_j c_j * d0_j * g_j *)
@@ -1638,6 +1653,8 @@ Section MultiplyLayer.
     destruct (mult_send_inv _ _ _ _ _ _ S) as (_ & -> & -> & ->).
     destruct (additive_check_from_nth_inv q alpha choices _ _ _ C) as [L _].
     unfold out, mult_recv.
+    rewrite mult_recv_check_same_len
+      by (unfold recv'; now rewrite alter_rcheck_length, map_length, alter_recv_length).
     destruct (multiply_check_altered q Hq chi0 chi1 choices alpha d0 d1 e f send recv C) as [[A R]|[_ R]];
       fold recv' in R; rewrite R; cbn [res_bind]; [|now left].
     right. unfold mult_share.
@@ -1667,6 +1684,8 @@ Section MultiplyLayer.
       by (subst ucheck; unfold zadd at 1; rewrite Z.add_0_r, Z.mod_small; [reflexivity | apply zadd_range, Hq]).
     destruct M as [M|(sR & M & _ & E)].
     - exfalso. subst rcheck ucheck. unfold mult_recv in M.
+      rewrite mult_recv_check_same_len in M
+        by (rewrite map_length; apply (additive_check_from_nth_inv q alpha choices _ _ _ C)).
       rewrite (multiply_check_passes q Hq chi0 chi1 choices alpha send recv C) in M. cbn [res_bind] in M.
       unfold mult_share in M. destruct (length gadget <? length recv)%nat; discriminate.
     - exists sR. split; [exact M|].
@@ -1754,7 +1773,6 @@ Section EndToEnd.
   Variables (q : Z) (nb : nat) (sc2 : bytes -> Z * Z) (hV : bytes -> bytes -> bytes)
             (prg : bytes -> nat -> bytes).
   Hypothesis Hq : 0 < q.
-  Hypothesis Hnb : (0 < nb)%nat.
   Hypothesis Hqnb : q <= Z.of_N (256 ^ N.of_nat nb).
   Hypothesis sc2_range : forall x, 0 <= fst (sc2 x) < q /\ 0 <= snd (sc2 x) < q.
   Hypothesis prg_ok : forall k n, okrow n (prg k n).
@@ -1846,7 +1864,7 @@ Section EndToEnd.
         by (rewrite ?LTrows, ?Lnbytes; llia).
       unfold extra. rewrite bit_at_app_l by llia. reflexivity. }
     destruct (additive_ot_sum q nb sc2 Hq Hqnb sc2_range (mi_alpha x, mi_alphahat x) choices V VC LV)
-      as (recv & AR & AC & FR); [llia | exact HVC |].
+      as (recv & AR & AC & FR); [exact HVC |].
     destruct (additive_send q nb sc2 (mi_alpha x, mi_alphahat x) V) as [CP sres] eqn:EAS.
     cbn [fst snd] in AR, AC.
     assert (Lsres : length sres = length V).
